@@ -423,7 +423,7 @@ def parts(ctx):
     ps += [Part("head%02d" % i, part, ("head", i, 16 if q else 400)) for i in range(1)]
     ps += [Part("heavy%02d" % i, part, ("heavy", i, 10 if q else 300)) for i in range(1)]
     ps += [Part("xconfig-%s" % p, xconfig_part, (p, 0, 10 if q else 400)) for p in ("npu", "cascade", "wide")]
-    ps += [Part("approx16-%02d" % i, part, ("approx16", i, 20 if q else 500)) for i in range(2)]
+    ps += [Part("approx16-%02d" % i, part, ("approx16", i, 30 if q else 500)) for i in range(2)]
     return ps
 
 
